@@ -25,9 +25,21 @@ package cache
 //@ func (*SubCache).Resolve
 //@   trusted
 //@   modifies nothing
+// ResolveComment: the bug handed back is the one that holds the comment handed back, and that comment's
+// combined id starts with the given prefix (C13: "resolves to that comment and its bug, never to another").
 //@ func (*RepoCacheBug).ResolveComment
-//@   trusted
+//@   props C13
+//@   requires c != nil && c.SubCache != nil
+//@   requires [ascii] forall k int :: { prefix[k] } 0 <= k && k < len(prefix) ==> prefix[k] < 128
 //@   modifies nothing
+//@   opt trusted_frame
+//@   let comments = result.Snapshot().Comments
+//@   ensures [bug-holds-comment] result2 == nil ==> result != nil && result1.HasPrefix(prefix) && (exists k int :: { comments[k] } 0 <= k && k < len(comments) && comments[k].combinedId == result1)
+//@   loop 2
+//@     invariant [match-is-in-bug] len(matchingBugIds) > 0 ==> matchingBug != nil && matchingCommentId.HasPrefix(prefix) && (exists k int :: { matchingBug.Snapshot().Comments[k] } 0 <= k && k < len(matchingBug.Snapshot().Comments) && matchingBug.Snapshot().Comments[k].combinedId == matchingCommentId)
+//@   loop 3
+//@     invariant [match-is-in-bug] len(matchingBugIds) > 0 ==> matchingBug != nil && matchingCommentId.HasPrefix(prefix) && (exists k int :: { matchingBug.Snapshot().Comments[k] } 0 <= k && k < len(matchingBug.Snapshot().Comments) && matchingBug.Snapshot().Comments[k].combinedId == matchingCommentId)
+//@     invariant [same-snapshot]   rangeslice == b.Snapshot().Comments
 
 // bugOps counts operations appended to bugs through the cache (every *Raw editing method appends one).
 //@ ghost var bugOps int
@@ -77,8 +89,12 @@ package cache
 //@   requires [request-user-must-be-explicit] requestUser == nil
 //@   modifies bugOps, repoWrites
 
-// Reading the compiled snapshot or the id of a cached entity appends nothing.
+// Reading the compiled snapshot or the id of a cached entity appends nothing; between edits the snapshot of
+// an entity is the same object (assumed: deterministic read).
 //@ func (*CachedEntityBase).Snapshot
+//@   trusted
+//@   opt interior_ok
+//@   purefn
 //@ func (*CachedEntityBase).Id
 //@   trusted
 //@   opt interior_ok
@@ -95,6 +111,35 @@ package cache
 //@   props C07 C11
 //@   nopanic typeassert
 //@   recvinv results: (elem.Status == entity.MergeStatusNew || elem.Status == entity.MergeStatusUpdated) && elem.Err == nil ==> implements(elem.Entity, EntityT)
+
+// ---- resolving by prefix / matcher (C13) ---------------------------------------------------------------
+// The id of an excerpt is a fixed attribute of it.
+//@ func Excerpt.Id
+//@   purefn
+
+// resolveMatcher scans every excerpt: with exactly one match its id is returned; with none the error is
+// ErrNotFound; with several it is ErrMultipleMatch listing the ids of exactly the matching excerpts (every
+// match is listed, and everything listed is a match).
+//@ func (*SubCache).resolveMatcher
+//@   props C13 C18
+//@   opt locks
+//@   pure f
+//@   requires sc != nil && sync.rwheld[&sc.mu] == 0
+//@   requires [excerpts-present] forall id entity.Id :: { sc.excerpts[id] } (id in sc.excerpts) ==> sc.excerpts[id] != nil
+//@   modifies sync.rwheld, allelems(entity.Id)
+//@   ensures [lock-balanced] forall m *sync.RWMutex :: { sync.rwheld[m] } sync.rwheld[m] == old(sync.rwheld[m])
+//@   ensures [one-match]     result1 == nil ==> (exists id entity.Id :: (id in sc.excerpts) && f(sc.excerpts[id]) && sc.excerpts[id].Id() == result) && (forall id entity.Id :: { sc.excerpts[id] } (id in sc.excerpts) && f(sc.excerpts[id]) ==> sc.excerpts[id].Id() == result)
+//@   ensures [error-kinds]   result1 != nil ==> result == entity.UnsetId && (typeof(result1) == type[*entity.ErrNotFound] || typeof(result1) == type[*entity.ErrMultipleMatch])
+//@   ensures [not-found]     typeof(result1) == type[*entity.ErrNotFound] ==> (forall id entity.Id :: { sc.excerpts[id] } (id in sc.excerpts) ==> !f(sc.excerpts[id]))
+//@   let mm = result1.(*entity.ErrMultipleMatch).Matching
+//@   ensures [several]       typeof(result1) == type[*entity.ErrMultipleMatch] ==> len(mm) > 1
+//@   ensures [all-listed]    typeof(result1) == type[*entity.ErrMultipleMatch] ==> (forall id entity.Id :: { sc.excerpts[id] } (id in sc.excerpts) && f(sc.excerpts[id]) ==> (exists k int :: { mm[k] } 0 <= k && k < len(mm) && mm[k] == sc.excerpts[id].Id()))
+//@   ensures [only-matches]  typeof(result1) == type[*entity.ErrMultipleMatch] ==> (forall k int :: { mm[k] } 0 <= k && k < len(mm) ==> (exists id entity.Id :: (id in sc.excerpts) && f(sc.excerpts[id]) && sc.excerpts[id].Id() == mm[k]))
+//@   loop 1
+//@     invariant [seen-listed]  forall id entity.Id :: { iterseen[id] } iterseen[id] && f(sc.excerpts[id]) ==> (exists k int :: { matching[k] } 0 <= k && k < len(matching) && matching[k] == sc.excerpts[id].Id())
+//@     invariant [listed-seen]  forall k int :: { matching[k] } 0 <= k && k < len(matching) ==> (exists id entity.Id :: iterseen[id] && (id in sc.excerpts) && f(sc.excerpts[id]) && sc.excerpts[id].Id() == matching[k])
+//@     invariant [seen-in-map]  forall id entity.Id :: { iterseen[id] } iterseen[id] ==> (id in sc.excerpts)
+//@     invariant [fresh-list]   fresh(matching)
 
 //@ func (*SubCache).ResolveExcerpt
 //@   trusted
